@@ -254,11 +254,15 @@ def EqDecl.toList? : EqDecl → Option (List String)
   | .one s => some [s]
   | .many l => some l
 
+/-- the resolved parent type (`[]` = none) -/
+def parentOf (env : List OType) (d : Def) : OType :=
+  match d.parent with
+  | none => []
+  | some j => (env[j]?).getD []
+
 /-- objectType.InitFromHash: the definition numbered `env.length` against the earlier definitions `env` -/
 def define (env : List OType) (d : Def) : Except Code OType :=
-  let parent : OType := match d.parent with
-    | none => []
-    | some j => env.getD j []
+  let parent : OType := parentOf env d
   match defineAttrs parent d.attrs with
   | .error c => .error c
   | .ok attrs =>
@@ -270,6 +274,14 @@ def define (env : List OType) (d : Def) : Except Code OType :=
       | .ok () =>
         .ok ({ id := env.length, attrs := attrs, equality := d.equality.toList?,
                includeType := d.includeType.getD true, serialization := d.serialization } :: parent)
+
+/-- the definitions of one loader, accepted one after the other (the driver's `runDefs` prints the same recursion) -/
+def defineAll : List OType → List Def → Except Code (List OType)
+  | env, [] => .ok env
+  | env, d :: ds =>
+    match define env d with
+    | .error c => .error c
+    | .ok t => defineAll (env ++ [t]) ds
 
 /-! ### attribute layout -/
 
